@@ -18,10 +18,10 @@ META = {
     "text": "Lean theorems: for ANY splitter, combiner and list lengths the loop filling final_combined_ind_mapping files every job "
     "under exactly one group — the one selected by its projection to keys_final — in enumeration order (C02_mapping_partition: no "
     "loss, no duplication, order inside groups), and the run-time grouping of LazyOutField.group_values (what the public path returns) "
-    "coincides with that mapping (C02_runtime_grouping, C02_public_is_mapping); assembled for every well-formed splitter over <= 4 "
-    "distinct fields, every combiner, lists of ANY length: the public output is one group per row of the reduced tree and every job "
+    "coincides with that mapping (C02_runtime_grouping, C02_public_is_mapping); assembled for every well-formed splitter over "
+    "distinct fields (any number), every combiner, lists of ANY length: the public output is one group per row of the reduced tree and every job "
     "lies in exactly one group, the one matching its projection to the remaining keys, in enumeration order "
-    "(C02_public_partition_le4); for ANY splitter tree and ANY set of fields remove_inp_from_splitter_rpn (stack "
+    "(C02_public_partition); for ANY splitter tree and ANY set of fields remove_inp_from_splitter_rpn (stack "
     "version, after the repair of D34) returns the RPN of the tree with exactly those fields removed, the remaining fields in "
     "order (C02_remove), and nothing when every axis is combined (C02_all_axes); the reduced RPN is a tree's RPN, so its splits "
     "are the reduced tree's nested loops with aligned keys (C02_reduced_splits, via C01); for every binary-bracketed splitter "
@@ -30,7 +30,7 @@ META = {
     "with <= 3 fields, every combiner, lengths 1-2 (C02_small_scope, bounded) and on the two repaired D34 shapes "
     "(C02_regression_D34).  First-occurrence order for lists of ANY non-zero length: the rows projected to the kept fields are the "
     "reduced tree's rows indexed by the mixed-radix pattern pat(shape, mask) (claimA) whose first occurrences come in increasing "
-    "order (nub_pat), so for every splitter over <= 4 distinct fields the public output equals the reference's stable group-by on "
+    "order (nub_pat), so for every splitter over distinct fields (any number) the public output equals the reference's stable group-by on "
     "the fields outside combiner_all when that set is closed under inner links (C02_order_partial, decidable hypothesis), and "
     "with C02_linked_le4 the property itself holds for every binary-bracketed shape over <= 4 canonically labelled fields, every "
     "non-empty combiner, every assignment of non-empty lists (C02_full_le4).  PARTIAL: one theorem for arbitrary field names, n-ary "
@@ -58,7 +58,7 @@ OBLIGATIONS = [
         "C02_runtime_grouping",
         "C02_public_is_mapping",
         "evalBin_nodup",
-        "C02_public_partition_le4",
+        "C02_public_partition",
         "nub_pat",
         "claimA",
         "C02_order_partial",
@@ -217,7 +217,7 @@ def judge_recs(ctx, recs):
             ctx.count("with-inner")
         key = json.dumps([case["splitter"], [len(v) for _, v, _ in case["fields"]], sorted(case["combiner"])])
         nontrivial = nf >= 2 and njobs >= 2 and (len(closed) < nf or has_inner)
-        if nf <= 4:
+        if nf <= 6:  # all trees are gated since the repair of D1
             ctx.judge({"case": case, "level": level}, impl, model, impl == orc, nontrivial=nontrivial, key=key, what="C02 public")
         else:
             ctx.count("outside-quantifier")
